@@ -416,6 +416,38 @@ func c03(r *core.Run) {
 			}
 		}
 	}
+	// the listener goroutine is the one goroutine Shutdown does not wait for: the message handler it
+	// runs must not use the connection itself (only through enqueue, which refuses after the stop)
+	for _, fn := range root {
+		if fn.Parent() != nil || fn.Signature.Recv() == nil || core.TypeName(fn.Signature.Recv().Type()) != a.S {
+			continue
+		}
+		hasMsg, callsEnq := false, false
+		for _, prm := range fn.Params {
+			if strings.HasSuffix(core.TypeName(prm.Type()), "nats.go.Msg") {
+				hasMsg = true
+			}
+		}
+		for _, c := range core.Calls(fn) {
+			if c.Common().StaticCallee() == a.Enqueue {
+				callsEnq = true
+			}
+		}
+		if !hasMsg || !callsEnq {
+			continue
+		}
+		via := ""
+		for _, c := range core.Calls(fn) {
+			cal := c.Common().StaticCallee()
+			if cal != nil && mayPub[cal] && cal != a.Enqueue {
+				via = core.FuncName(cal) + " at " + p.InstrPos(c)
+			}
+			if c.Common().IsInvoke() && c.Common().Method.Name() == "Publish" {
+				via = "Conn.Publish at " + p.InstrPos(c)
+			}
+		}
+		r.Check(via == "", "S5", core.FuncName(fn), "message-handler-publishes-only-through-enqueue", p.Pos(fn.Pos()), "the listener goroutine never touches the connection directly", "the message handler, which runs on the listener goroutine that Shutdown does not wait for, can publish directly ("+via+"): a request still buffered when Shutdown clears the connection dereferences a nil connection (panic in the goroutine blocked in Serve)")
+	}
 	{
 		// enqueue itself
 		guardOK := false
@@ -454,6 +486,10 @@ func c03(r *core.Run) {
 				if startedEdge(ed, started) {
 					ok = true
 				}
+			}
+			if !ok && p.IsPrivateHelper(cal) {
+				// the entry point delegates to a private helper that performs the started-check itself
+				ok = helperChecksStarted(p, cal, mayPub, func(ed edgeCond) bool { return startedEdge(ed, started) }, a.Enqueue, 0)
 			}
 			r.Check(ok, "S5", core.FuncName(fn), "started-check-dom-call:"+core.FuncName(cal), p.InstrPos(c), "publishing call is dominated by the state==started edge", "publishing entry point uses the connection without a dominating started-check: after Shutdown it dereferences a cleared connection (panic)")
 		}
@@ -698,4 +734,36 @@ func c03Workers(r *core.Run, a *svcAnchors, e *lockEngine) {
 	}
 	r.Check(sawClosedReturn && n > 0, "S4", wname, "nil-queue-edge-reaches-return", p.Pos(w.Pos()), "observing the closed queue leads to return", "no return is reached on the closed-queue edge")
 	_ = sort.Strings
+}
+
+// helperChecksStarted: inside the private helper h every call that may reach
+// Conn.Publish (not through enqueue) - and every direct Publish - is dominated
+// by the started edge, or goes to another private helper of which that holds.
+func helperChecksStarted(p *core.Prog, h *ssa.Function, mayPub map[*ssa.Function]bool, isStarted func(edgeCond) bool, enqueue *ssa.Function, depth int) bool {
+	if depth > 3 {
+		return false
+	}
+	n := 0
+	for _, c := range core.Calls(h) {
+		cal := c.Common().StaticCallee()
+		direct := c.Common().IsInvoke() && c.Common().Method.Name() == "Publish"
+		if !direct && (cal == nil || !mayPub[cal] || cal == enqueue) {
+			continue
+		}
+		n++
+		dom := false
+		for _, ed := range dominatingEdges(c) {
+			if isStarted(ed) {
+				dom = true
+			}
+		}
+		if dom {
+			continue
+		}
+		if cal != nil && p.IsPrivateHelper(cal) && helperChecksStarted(p, cal, mayPub, isStarted, enqueue, depth+1) {
+			continue
+		}
+		return false
+	}
+	return n > 0
 }
